@@ -1,8 +1,98 @@
-/- Driver handlers for area `wellknown` (stub: replace `handle`). -/
+/- Driver handlers for area `wellknown` (C16: LookupWellKnown). -/
 import VDriver.Util
+import VModel.WellKnown
 namespace V.Driver.WellknownOps
-open V V.Driver
+open V V.Driver V.WellKnown V.Json
 
-def handle (_op : String) (_args : Array String) : Option String := none
+def unhexStr (s : String) : Option WellKnown.Str := (unhex s).map (fun b => (bytesStr b).toList)
+
+/-- Go's encoding/json `foldName` on a key: ASCII letters to upper case, U+017F (ſ) to S, U+212A (K) to K. -/
+def foldBytes : Bytes → Bytes
+  | 0xC5 :: 0xBF :: rest => 0x53 :: foldBytes rest
+  | 0xE2 :: 0x84 :: 0xAA :: rest => 0x4B :: foldBytes rest
+  | c :: rest => (if 0x61 ≤ c && c ≤ 0x7A then c - 0x20 else c) :: foldBytes rest
+  | [] => []
+
+def mServerKey : Bytes := strBytes "m.server"
+
+/-- json.Unmarshal(body, &struct{ NewAddress spec.ServerName `json:"m.server"` }) — modelled, not verified
+    (trusted base: encoding/json): syntax = VModel.Json.parse; a top-level `null` decodes to nothing; any
+    other non-object is a type error; members are read in document order, a key matches exactly or
+    after case folding, a string value is stored, `null` leaves the field, anything else is a type
+    error (decoding goes on, the call fails at the end). -/
+def decodeGo (body : Bytes) : Option Decoded :=
+  match parse body with
+  | none => some .error
+  | some p =>
+    if !p.wellFormed then none    -- invalid UTF-8 / lone surrogates inside strings: replacement rules not modelled
+    else match p with
+    | .null => some (.ok [])
+    | .obj kvs =>
+      let (addr, err) := kvs.foldl (fun (acc : Bytes × Bool) kv =>
+        let (_, key, v) := kv
+        if key == mServerKey || foldBytes key == foldBytes mServerKey then
+          match v with
+          | .str _ dec => (dec, acc.2)
+          | .null => acc
+          | _ => (acc.1, true)
+        else acc) ([], false)
+      some (if err then .error else .ok addr)
+    | _ => some .error
+
+/-- body descriptor `<hx prefix>+<n>x<hx byte>+<hx suffix>` -/
+def parseBody (s : String) : Option Bytes :=
+  match s.splitOn "+" with
+  | [p, mid, q] =>
+    match mid.splitOn "x" with
+    | [n, b] =>
+      match unhex p, n.toNat?, unhex b, unhex q with
+      | some p, some n, some [b], some q => some (p ++ List.replicate n b ++ q)
+      | _, _, _, _ => none
+    | _ => none
+  | _ => none
+
+def showWKErr : WKErr → String
+  | .status => "err:status"
+  | .size => "err:size"
+  | .decode => "err:decode"
+  | .noServer => "err:noserver"
+
+/-- expiry as the harness canonicalises it: relative to the clock when it came from max-age -/
+def showExpiry (abs : Bool) (v : Int) : String := (if abs then "abs:" else "rel:") ++ toString v
+
+/-- ops:
+    lookup <mode> <status> <hx content-length> <hx cache-control> <hx expires> <expires parsed: x|int> <body descr> <abs candidates>
+       -> ok:<hx m.server>:<abs:<unix>|rel:<seconds from now>> | err:status | err:size | err:decode | err:noserver
+    The model is run with now = 0, so a max-age lifetime comes out relative to the call time, which is
+    how the harness prints it (CacheExpiresAt - time of call).
+-/
+def handle (op : String) (args : Array String) : Option String :=
+  match op, args.toList with
+  | "lookup", [_mode, status, cl, cc, ex, exParsed, bodyD, _cands] =>
+    match status.toNat?, unhexStr cl, unhexStr cc, unhexStr ex, parseBody bodyD with
+    | some st, some cl, some cc, some ex, some body =>
+      let expiresTime : Option Int := if exParsed == "x" then none else exParsed.toInt?
+      let r : Reply := ⟨st, cl, cc, ex, body⟩
+      -- decode is evaluated once on the bytes actually read
+      let read := body.take (maxSize + 1)
+      match (if read.length > maxSize then some Decoded.error else decodeGo read) with
+      | none => some "skip:ill-formed-unicode-in-body"
+      | some d =>
+        let res := lookup r 0 expiresTime (fun _ => d)
+        let usedMaxAge := (Spec.maxAge cc).isSome
+        let m := match res with
+          | .error e => showWKErr e
+          | .ok w => "ok:" ++ hex w.newAddress ++ ":" ++ showExpiry (!usedMaxAge) w.cacheExpiresAt
+        -- specification: honoured only if status 200, at most 50 KiB, names an m.server; lifetime from
+        -- max-age in preference to Expires
+        let honourable := st == 200 && body.length ≤ 51200 && (match d with | .ok a => !a.isEmpty | .error => false)
+        let s := match res with
+          | .ok w =>
+            if honourable then "ok:" ++ hex w.newAddress ++ ":" ++ showExpiry (!usedMaxAge) (Spec.lifetime r 0 expiresTime)
+            else "err:must-refuse"
+          | .error e => showWKErr e      -- refusing is always allowed by "honoured only if"
+        some (m ++ "\t" ++ s)
+    | _, _, _, _, _ => some "bad-op"
+  | _, _ => none
 
 end V.Driver.WellknownOps
